@@ -24,6 +24,7 @@ import (
 	"path"
 	"path/filepath"
 	"sort"
+	"strings"
 
 	"github.com/go-openapi/analysis"
 	"github.com/go-openapi/loads"
@@ -91,6 +92,9 @@ func newAppGenerator(name string, modelNames, operationIDs []string, opts *GenOp
 	}
 
 	operations := gatherOperations(analyzed, operationIDs)
+	if err := checkAllOperationsGathered(analyzed, operationIDs, operations); err != nil {
+		return nil, err
+	}
 
 	if len(operations) == 0 && !opts.IgnoreOperations {
 		return nil, errors.New("no operations were selected")
@@ -402,6 +406,17 @@ func (a *appGenerator) makeCodegenApp() (GenApp, error) {
 		genOps = append(genOps, op)
 	}
 	sort.Sort(genOps)
+
+	// same for operations, within a package
+	goOps := make(map[string]string, len(genOps))
+	for _, op := range genOps {
+		goName := op.Package + "." + strings.ToLower(swag.ToFileName(pascalize(op.Name)))
+		if other, found := goOps[goName]; found {
+			return GenApp{}, fmt.Errorf("operations %q and %q cannot be told apart once converted to go names (%s): set distinct operationIds",
+				other, op.Name, pascalize(op.Name))
+		}
+		goOps[goName] = op.Name
+	}
 
 	opsGroupedByPackage := make(map[string]GenOperations, len(genOps))
 	for _, operation := range genOps {
